@@ -278,10 +278,20 @@ def _default_edit(rng, ir, mode, where):
     if mode == "remove":
         b.default = UNSET
     else:
+        from ..ref import refcoerce
+
         for _ in range(20):
             d = sg.input_value_for(a.type, depth=2)
-            if (d is not None or a.type[0] != "nonnull") and (mode == "add" or d != a.default):
+            if d is None and a.type[0] == "nonnull":
+                continue
+            if mode == "add":
                 break
+            try:
+                # a different literal that coerces to the same value is no edit
+                if refcoerce.coerce_literal(ir, a.type, d) != refcoerce.coerce_literal(ir, a.type, a.default):
+                    break
+            except RecursionError:
+                return None
         else:
             return None
         if d is None and a.type[0] == "nonnull":
@@ -760,7 +770,10 @@ def run(ctx):
         # one added or removed, which is then legitimately reported as a whole)
         for e, needle in (zip(applied, needles) if len(applied) == 1 else ()):
             if not any(needle in m for _c, m, _s in changes):
-                if "_type_" in e and not any(needle in d for d in model):
+                retyped_dir_arg = e == "directive_argument_edit" and any(
+                    needle in [x.name for x in d1.args] and needle in [x.name for x in b.directives.get(d1.name, d1).args]
+                    for d1 in a.directives.values())
+                if ("_type_" in e or retyped_dir_arg) and not any(needle in d for d in model):
                     # retyping that is safe for every client (output tightened / input relaxed)
                     ctx.violation("edit-not-reported:compatible-type-change", witness,
                                   "%s: no change mentions %r" % (e, needle))
